@@ -35,7 +35,7 @@ def check(prop, tier, seed, replay_path=None, selftest=False, keep=False):
         mcs = [V.tlc_mc(scratch, "MCTools", cfg["mc"])]
         binp = V.build_harness(scratch, "tools")
         pd = scratch.path("protodump")
-        p = V.run(["go", "build", "-o", pd, "./cmd/protodump"], cwd=V.REPO, timeout=600, check=False)
+        p = V.run(["go", "build", "-o", pd] + V.COVER_FLAGS + ["./cmd/protodump"], cwd=V.REPO, timeout=600, check=False)
         if p.returncode != 0:
             raise V.Inconclusive("protodump does not build:\n" + p.stdout[-2000:])
         outp = scratch.path("tr-C20")
